@@ -9,13 +9,16 @@
 //   init      initial payload value;   throw_k... : indices of the user-code invocations that throw (vs::plan())
 //   payloadkind 0: the wrapped type is vs::WPay (instrumented: every access is a window, copy / assignment are
 //             user code);  1: a plain `long` - its accesses are invisible, only the mutex operations, the
-//             functor calls of modify / read and K_INVOKE / K_RET remain in the trace
+//             functor calls of modify / read and K_INVOKE / K_RET remain in the trace;  2: vs::TPay, a trivially
+//             copyable struct {v, tag} whose operator== ignores tag (invisible accesses like kind 1; the same
+//             plain kind for the model)
 // ops (first int = code, logged as the K_INVOKE value):
 //   0 Lock h  1 TryLock h  2 TryLockFor h  3 TryLockUntil h  4 LockShared h  5 TryLockShared h
 //   6 TryLockSharedFor h  7 TryLockSharedUntil h  8 ConstLock h   (result: 1 = handle is true, 0 = null handle)
 //   9 Unlock h  10 Destroy h  11 MoveCtor src dst  12 MoveAssign src dst
 //   13 Use h acc v guard   acc 0 read / 1 incr / 2 write v through operator->; guard 1 = "if (h)" first
-//   14 Bool h  15 Load  16 Store v  17 Assign v  18 Modify fid  19 Read fid  20 Exchange v
+//   14 Bool h  15 Load  16 Store v  17 Assign v [lv]  (lv = 1: `wrapper = lvalue;`, K_FAULT 0 8 if the lvalue
+//   was stolen)  18 Modify fid  (functor shape (fid / 2) % 3)  19 Read fid  20 Exchange v
 //   21 CompareExchange e d  (result 2*expected_after + success)  22 Cast (operator T() const)
 // Every thread has NSLOTS handle slots; a slot holds nothing, a lock_handle or a shared_lock_handle.
 // An acquisition into an occupied slot is `slot = wrapper.lock();`: the new handle is acquired first and
@@ -64,6 +67,52 @@ struct Pay<long> {
     static long peek(const long& p) { return p; }
     static void poke(long& p, long v) { p = v; }
     static long mk(long v) { return v; }
+};
+inline long next_tag()
+{
+    static long t = 0;  // only ever touched by the thread holding the baton
+    return ++t;
+}
+template<>
+struct Pay<vs::TPay> {
+    static long rd(const vs::TPay& p) { return p.v; }
+    static void wr(vs::TPay& p, long v)
+    {
+        p.v = v;
+        p.tag = next_tag();
+    }
+    static long peek(const vs::TPay& p) { return p.v; }
+    static void poke(vs::TPay& p, long v)
+    {
+        p.v = v;
+        p.tag = next_tag();
+    }
+    static vs::TPay mk(long v) { return vs::TPay{v, next_tag()}; }
+};
+
+// functor shapes for ordered_guarded::modify (all of them modify through the non-const overload)
+template<class P>
+struct ModVisitor {  // both overloads; the const one only reads
+    long fid;
+    long operator()(P& p) const
+    {
+        vs::user_call(fid);
+        long x = Pay<P>::rd(p);
+        Pay<P>::wr(p, x + 1);
+        return x + 1;
+    }
+    long operator()(const P& p) const { return Pay<P>::rd(p); }
+};
+template<class P>
+struct ModVisitorVoid {
+    long fid;
+    void operator()(P& p) const
+    {
+        vs::user_call(fid);
+        long x = Pay<P>::rd(p);
+        Pay<P>::wr(p, x + 1);
+    }
+    void operator()(const P& p) const { (void)Pay<P>::rd(p); }
 };
 
 struct IWrap {
@@ -132,6 +181,7 @@ struct Wrap: IWrap {
     std::unique_ptr<W> w;
     std::vector<std::array<Slot, NSLOTS>> slots;
     std::vector<P> expected;  // compare_exchange's in/out argument: one per thread, stable address
+    std::vector<vs::WSrc> sources;  // the caller's lvalue of `wrapper = lvalue;`, one per thread
 
     static W* build(bool en, long init)
     {
@@ -141,7 +191,7 @@ struct Wrap: IWrap {
             return new W(PA::mk(init));
         }
     }
-    Wrap(const vs::Case& c, bool en, long init): w(build(en, init)), slots(c.progs.size()), expected(c.progs.size()) {}
+    Wrap(const vs::Case& c, bool en, long init): w(build(en, init)), slots(c.progs.size()), expected(c.progs.size()), sources(c.progs.size()) {}
 
     static long installX(Slot& sl, XH&& tmp)
     {
@@ -281,6 +331,21 @@ struct Wrap: IWrap {
                 return -1;
             case 17:
                 if constexpr (hasLS) {
+                    if (arg(2) != 0) {
+                        // `wrapper = lvalue;` : the caller's object must be intact afterwards
+                        if constexpr (std::is_same_v<P, WPay>) {
+                            vs::WSrc& src = sources[tid];
+                            src.v = arg(1);
+                            src.moved = false;
+                            *w = src;
+                            if (src.moved || src.v != arg(1)) vs::fault(nullptr, 8);
+                        } else {
+                            P src = PA::mk(arg(1));
+                            *w = src;
+                            if (PA::peek(src) != arg(1)) vs::fault(nullptr, 8);
+                        }
+                        return 0;
+                    }
                     *w = PA::mk(arg(1));
                     return 0;
                 }
@@ -288,14 +353,36 @@ struct Wrap: IWrap {
             case 18:
                 if constexpr (hasFn) {
                     const long fid = arg(1);
+                    // functor shape (invisible to the model: all three modify through a non-const reference):
+                    // 0 lambda taking T&; 1 visitor with operator()(T&) and operator()(const T&);
+                    // 2 generic lambda with an explicit return type
+                    const long shape = (fid / 2) % 3;
                     if (fid % 2 == 0) {
-                        w->modify([fid](P& p) {
+                        if (shape == 1) {
+                            w->modify(ModVisitorVoid<P>{fid});
+                        } else if (shape == 2) {
+                            w->modify([fid](auto& p) -> void {
+                                vs::user_call(fid);
+                                long x = PA::rd(p);
+                                PA::wr(p, x + 1);
+                            });
+                        } else {
+                            w->modify([fid](P& p) {
+                                vs::user_call(fid);
+                                long x = PA::rd(p);
+                                PA::wr(p, x + 1);
+                            });
+                        }
+                        return 0;
+                    }
+                    if (shape == 1) return w->modify(ModVisitor<P>{fid});
+                    if (shape == 2)
+                        return w->modify([fid](auto& p) -> long {
                             vs::user_call(fid);
                             long x = PA::rd(p);
                             PA::wr(p, x + 1);
+                            return x + 1;
                         });
-                        return 0;
-                    }
                     return w->modify([fid](P& p) -> long {
                         vs::user_call(fid);
                         long x = PA::rd(p);
@@ -360,9 +447,10 @@ IWrap* make_k(const vs::Case& c, long mk, bool en, long init)
     }
 }
 template<int FL>
-IWrap* make_p(const vs::Case& c, long mk, bool en, long init, bool plain)
+IWrap* make_p(const vs::Case& c, long mk, bool en, long init, long kind)
 {
-    return plain ? make_k<FL, long>(c, mk, en, init) : make_k<FL, WPay>(c, mk, en, init);
+    if (kind == 2) return make_k<FL, vs::TPay>(c, mk, en, init);
+    return kind != 0 ? make_k<FL, long>(c, mk, en, init) : make_k<FL, WPay>(c, mk, en, init);
 }
 
 struct WrapperComp {
@@ -374,7 +462,7 @@ struct WrapperComp {
         for (size_t i = 5; i < c.cfg.size(); ++i) throws.push_back(c.cfg[i]);
         vs::plan().reset(throws);
         const bool en = cf(2) != 0;
-        const bool plain = cf(4) != 0;
+        const long plain = cf(4);
         switch (cf(0)) {
             case 0: w.reset(make_p<0>(c, cf(1), en, cf(3), plain)); break;
             case 1: w.reset(make_p<1>(c, cf(1), en, cf(3), plain)); break;
